@@ -911,6 +911,7 @@ func main() {
 		"readers are in-memory (bytes.Reader): read fragmentation is C01's subject",
 		"fingerprints listed in known-findings.txt are reported from the enumeration's observation; unlisted fingerprints are reported only if a witness reproduces 5/5 alone in a fresh worker",
 	}
+	os.RemoveAll(filepath.Join(report.Root(), "replays", "C07")) // stale replay files of earlier runs
 	code := chk.Finish(cov, assumptions)
 	procsMu.Lock()
 	for p := range procs {
